@@ -281,6 +281,11 @@ class PathEnumerator:
         if isinstance(tg, ast.Attribute):
             base = self.ev.expr(tg.value, f)
             p.events.append(Event("store", st, ("store", base, tg.attr, v)))
+            if isinstance(tg.value, ast.Name) and base[0] == "new":
+                # a store on an object constructed in this function updates the constructed value
+                flds = dict(base[2])
+                flds[tg.attr] = v
+                p.env[tg.value.id] = ("new", base[1], tuple(sorted(flds.items())))
             return
         if isinstance(tg, ast.Subscript):
             base = self.ev.expr(tg.value, f)
@@ -353,10 +358,20 @@ def _assigned_names(stmts: Sequence[ast.stmt]) -> List[str]:
             elif isinstance(n, ast.For):
                 tg = [n.target]
             for t in tg:
-                for m in ast.walk(t):
-                    if isinstance(m, ast.Name) and m.id not in out:
-                        out.append(m.id)
+                for nm in _target_names(t):
+                    if nm not in out:
+                        out.append(nm)
     return out
+
+
+def _target_names(t: ast.expr) -> List[str]:
+    if isinstance(t, ast.Name):
+        return [t.id]
+    if isinstance(t, (ast.Tuple, ast.List)):
+        return [n for e in t.elts for n in _target_names(e)]
+    if isinstance(t, ast.Starred):
+        return _target_names(t.value)
+    return []  # attribute / subscript stores do not rebind a local name
 
 
 def loop_events(path: Path) -> List[Event]:
